@@ -1,6 +1,7 @@
 (* Props/C03.v — pinned statements for property C03 (encoder output is well-formed, deterministic,
    shortest-form CBOR).  Nothing but statements closed by `exact`; proofs live in Proofs/. *)
 From MC Require Import Bytes Cbor Item Acc Encoder Methods Calls Types EncoderFacts ItemFacts MethodsWf CallsFacts.
+From MC Require Import Denote TypesFacts TypesItem.
 Local Open Scope N_scope.
 
 (* Every Encoder method that writes a whole item produces exactly the RFC 8949 preferred
@@ -62,6 +63,32 @@ Example C03_balanced_example :
   option_map flat (run_calls (calls_of e)) = Some (ser e).
 Proof. vm_compute. auto. Qed.
 
+(* Each built-in Encode impl (Model/Types.v, every descriptor without a bare Tag, every value the encoder
+   accepts, the encoding having a usize length) writes exactly the RFC 8949 preferred, definite-length
+   serialisation of the data-model item the value denotes (Spec/Denote.v) … *)
+Theorem C03_types : forall t v cs,
+  no_bare_tag t = true -> encode_ty t v = Some cs -> len (flat cs) < two64 ->
+  exists i, denote t v = Some i /\ item_ok i = true /\ flat cs = enc_pref i.
+Proof. exact types_preferred. Qed.
+
+(* … hence exactly one well-formed data item with every head in its shortest form and that value. *)
+Theorem C03_types_wellformed : forall t v cs,
+  no_bare_tag t = true -> encode_ty t v = Some cs -> len (flat cs) < two64 ->
+  exists i e, denote t v = Some i /\ flat cs = ser e /\ wf e = true /\ pref e = true /\ val_of e = i.
+Proof. exact types_wellformed. Qed.
+
+(* The excluded impl, data::Tag, writes the shortest tag header (not a whole item). *)
+Theorem C03_types_tag : forall n cs, encode_ty TyTag (VNat n) = Some cs -> flat cs = phead 6 n.
+Proof. exact tag_is_header. Qed.
+
+Example C03_types_example :
+  no_bare_tag rt_example_ty = true /\
+  match encode_ty rt_example_ty rt_example_val, denote rt_example_ty rt_example_val with
+  | Some cs, Some i => item_ok i = true /\ flat cs = enc_pref i /\ (50 <? len (flat cs)) = true
+  | _, _ => False
+  end.
+Proof. vm_compute. auto. Qed.
+
 Print Assumptions C03_methods.
 Print Assumptions C03_wellformed.
 Print Assumptions C03_reference.
@@ -70,3 +97,6 @@ Print Assumptions C03_iter_array.
 Print Assumptions C03_iter_map.
 Print Assumptions C03_refusals.
 Print Assumptions C03_heads.
+Print Assumptions C03_types.
+Print Assumptions C03_types_wellformed.
+Print Assumptions C03_types_tag.
